@@ -4,7 +4,7 @@
     (FixedWeight / Weight bits, the weighted ring, the sort order of the slot
     vector, round-robin and random picks through Table.LookupHost). *)
 From Coq Require Import List ZArith NArith QArith Qround Bool.
-From Fabio Require Import Lib.Outcome Lib.Verdict Model.Weigh Model.WeighF Model.Ring Model.Pick.
+From Fabio Require Import Lib.Outcome Lib.Verdict Model.Weigh Model.WeighF Model.Ring Model.Pick Model.ListenerPick.
 Import ListNotations.
 Local Open Scope outcome_scope.
 
@@ -26,8 +26,27 @@ Record obs := {
   o_rnd : list (nat * outcome N)       (* (k returned by the random source, picked target) *)
 }.
 
+(** one route of the real listener class (CListen), as the route package shows it in the running fabio *)
+Record lroute_obs := {
+  lo_fixed : list Z;                   (* FixedWeight bits of r.Targets *)
+  lo_weights : list Z;                 (* Weight bits *)
+  lo_ring : list N;                    (* r.wTargets: target index per slot, 255 = nil *)
+  lo_before : N;                       (* r.total before the first connection *)
+  lo_after : N                         (* ... after the last one *)
+}.
+Record lobs := {
+  l_routes : list lroute_obs;          (* the tcp route, the http route *)
+  l_ups : list N                       (* per connection: index (in r.Targets) of the upstream that received it,
+                                          255 = none (404 / closed), 254 = the exchange failed *)
+}.
+
 Inductive case :=
 | CRoute (cmds : list cmd) (full : bool) (impl : outcome obs)
+(* the real main() with ONE `https+tcp+sni` listener, `-proxy.strategy` rr (0) / rnd (1), a route per server
+   name with the weights [routes] (bits of the `route add ... weight` clauses, 0 = none), and the connections
+   of [sched] one after the other (the index of the route whose server name the client sends; an index
+   outside [routes] = a name without route) *)
+| CListen (strategy : N) (routes : list (list Z)) (sched : list N) (impl : outcome lobs)
 (* the config language on a command text whose weights have these bit patterns: did NewTable accept it?
    (since /repo 0b2a40e parseWeight rejects NaN and +-Inf) *)
 | CParse (ws : list Z) (impl : outcome bool).
@@ -270,6 +289,98 @@ Fixpoint agrees_where_set (partial : ring) (impl : list N) : bool :=
   end.
 Definition prefix_budget : Z := 50.
 
+(* ---------- the real listener class ---------- *)
+(** weights and ring of one route against the weigh / slot model (the layout of a filled ring is the
+    business of CRoute; here the ring enters the pick model as observed, tied to the model by its
+    occupancies and its length); the cursor of a fresh table is 0 *)
+Definition listen_static_same (ws_in : list Z) (o : lroute_obs) : bool :=
+  match run_cmds false (map CAdd ws_in) [] with
+  | Ok fixedF =>
+      let n := length fixedF in
+      let ws := weigh F fixedF in
+      let counts := map (slot_count F) ws in
+      list_eqb bits_eqb (lo_fixed o) (map f64_bits fixedF)
+      && list_eqb bits_eqb (lo_weights o) (map f64_bits ws)
+      && (if uses_fill F fixedF
+          then list_eqb Z.eqb (map Z.of_N (occ_bytes n (lo_ring o))) (map (Z.max 0) counts)
+               && (Z.of_nat (length (lo_ring o)) =? used_slots counts)%Z
+          else list_eqb N.eqb (lo_ring o) (map N.of_nat (seq 0 n)))
+      && (lo_before o =? 0)%N
+  | _ => false
+  end.
+
+Definition lroute_of_obs (o : lroute_obs) : lroute :=
+  {| lr_n := length (lo_fixed o); lr_ring := ring_of_bytes (lo_ring o); lr_total := lo_before o |}.
+
+(** the upstreams of the connections of route [j], in order *)
+Definition ups_of (j : N) (sched ups : list N) : list N :=
+  map snd (filter (fun p => (fst p =? j)%N) (combine sched ups)).
+
+(** the property's clauses on what the listener showed, route by route; nothing of the pick model:
+    the effective weights and the ring (spec_obs: non-negative, sum to one, shape, share of slots = weight
+    within the resolution, zero weight no slot, positive weight a slot), every connection reached a target
+    of positive weight, and with round robin target i received, of N connections = q whole cycles of
+    U = len(ring) plus a rest of r, between q*slots_i and q*slots_i + min(slots_i, r) (exactly its share
+    when r = 0; a target with a slot is not starved once q >= 1; one without a slot receives nothing) *)
+Definition spec_listen_route (rr : bool) (o : lroute_obs) (ups : list N) : bool :=
+  let n := length (lo_fixed o) in
+  let U := length (lo_ring o) in
+  let occ := occ_bytes n (lo_ring o) in
+  spec_obs n {| o_fixed := lo_fixed o; o_weights := lo_weights o; o_ring := lo_ring o; o_order := [];
+                o_cursor := 0%N; o_first := Ok ups; o_cycle := None; o_rnd := [] |}
+  && (negb rr ||
+      let cnt := length ups in
+      if Nat.eqb n 1 then true        (* a single target receives everything: the o_first clause *)
+      else
+        let q := N.of_nat (cnt / U) in
+        let r := N.of_nat (cnt mod U) in
+        forallb (fun p => let '(i, s) := p in
+                          let h := N.of_nat (length (filter (N.eqb (N.of_nat i)) ups)) in
+                          (q * s <=? h)%N && (h <=? q * s + N.min s r)%N)
+                (combine (seq 0 n) occ)).
+
+Definition spec_listen (rr : bool) (sched : list N) (o : lobs) : bool :=
+  Nat.eqb (length (l_ups o)) (length sched)
+  && forallb (fun p => spec_listen_route rr (snd p) (ups_of (N.of_nat (fst p)) sched (l_ups o)))
+             (combine (seq 0 (length (l_routes o))) (l_routes o))
+  (* a server name without route reaches no upstream *)
+  && forallb (fun p => (fst p <? N.of_nat (length (l_routes o)))%N || (snd p =? 255)%N) (combine sched (l_ups o)).
+
+Definition check_listen (strategy : N) (routes : list (list Z)) (sched : list N) (impl : outcome lobs) : N :=
+  match impl with
+  | Ok o =>
+      let rr := (strategy =? 0)%N in
+      let static_same :=
+          Nat.eqb (length routes) (length (l_routes o))
+          && forallb (fun p => listen_static_same (fst p) (snd p)) (combine routes (l_routes o)) in
+      let tb := map lroute_of_obs (l_routes o) in
+      let dyn_same :=
+          Nat.eqb (length (l_ups o)) (length sched) &&
+          if rr then
+            match listener_run MPFirst (map N.to_nat sched) tb with
+            | Ok (us, tb') =>
+                list_eqb N.eqb (l_ups o) (map byte_of_slot us)
+                && list_eqb N.eqb (map lo_after (l_routes o)) (map lr_total tb')
+            | _ => false
+            end
+          else
+            (* rnd: the cursor is not touched and every connection reaches a target some value of the
+               random source selects *)
+            forallb (fun p => match nth_error tb (N.to_nat (fst p)) with
+                              | Some rt => rnd_conn_can rt (slot_of_byte (snd p))
+                              | None => (snd p =? 255)%N
+                              end) (combine sched (l_ups o))
+            && list_eqb N.eqb (map lo_after (l_routes o)) (map lo_before (l_routes o)) in
+      let nontrivial :=
+          rr && existsb (fun p => Nat.ltb 1 (length (lo_fixed (snd p)))
+                                  && negb (Nat.eqb (length (ups_of (N.of_nat (fst p)) sched (l_ups o))) 0))
+                        (combine (seq 0 (length (l_routes o))) (l_routes o)) in
+      verdict (static_same && dyn_same) (spec_listen rr sched o) None nontrivial
+  | _ =>
+      (* fabio did not come up with a valid configuration *)
+      verdict false false None true
+  end.
+
 Definition check_case (c : case) : N :=
   match c with
   | CRoute cmds full impl =>
@@ -350,4 +461,5 @@ Definition check_case (c : case) : N :=
       let accepted := forallb (fun b => f64_finite (f64_of_bits b)) ws in
       let same := match impl with Ok b => Bool.eqb b accepted | _ => false end in
       verdict same (match impl with Panic => false | _ => true end) None false
+  | CListen strategy routes sched impl => check_listen strategy routes sched impl
   end.
